@@ -74,6 +74,9 @@ class HttpShard(ShardCMC):
 
     def fetch_cmc_chunk(self, cmc: np.uint64):
         minishard_key = self.get_minishard_key(cmc)
+        # populate_minishard_dict() fills ro_minishard_dict
+        if minishard_key in self.ro_minishard_dict:
+            return self.ro_minishard_dict[minishard_key].fetch_cmc_chunk(cmc)
         assert minishard_key in self.minishard_dict
         return self.minishard_dict[minishard_key].fetch_cmc_chunk(cmc)
 
